@@ -26,7 +26,8 @@ import glob
 for f in sorted(glob.glob(os.path.join(ROOT, "tools", "manifest.d", "C*.json"))):
     d = json.load(open(f))
     pid = os.path.basename(f)[:-5]
-    if os.path.exists(os.path.join(ROOT, "evidence", pid + ".json")):
+    claimed = open(os.path.join(ROOT, "tools", "claimed.txt")).read().split()
+    if pid in claimed and os.path.exists(os.path.join(ROOT, "evidence", pid + ".json")):
         check(pid, d["level"], d["technique"], d["text"], d["note"], d.get("ref", "DESIGN.md §4 " + pid))
 
 def main():
